@@ -163,7 +163,7 @@ CHECKS = {
     "C19": dict(
         packs=["c19"], level="other",
         explanation="R19.1 on every path of Triangle::scanline_intersection the set of rasterised edges is exactly (p1,p2),(p1,p3),(p2,p3) of the (y,x)-sorted vertices (only (p1,p3) in the colinear case), Triangle::contains walks the same canonical edges, sorted_yx is a 3-step compare-exchange network; "
-                    "R19.2 polyline Points::next loads Line(start+translate, end+translate) of the next two vertices, drops one vertex per segment, and re-enters the polyline iterator with the shared joint skipped so that zero-length segments fall through.",
+                    "R19.3 winding symmetry of Triangle::contains: the inside test is invariant under (s, t, area) -> (-s, -t, -area), decided in the sign domain over all 18 sign cases; R19.2 polyline Points::next loads Line(start+translate, end+translate) of the next two vertices, drops one vertex per segment, and re-enters the polyline iterator with the shared joint skipped so that zero-length segments fall through.",
         claim="Decides the canonical-edge clause (shared edges rasterise identically, result independent of vertex order as far as edge direction is concerned) and the segment-chaining structure of thin polylines; interior coverage, one-pixel tolerance and gap-freedom are geometry and not decided.",
         note="Necessary conditions; fail closed on unrecognised idioms.",
         technique="per-path origin trees and path summaries over MIR (edge-set extraction, per-path effects of the polyline iterator) compared with the canonical edge table",
@@ -204,7 +204,7 @@ CHECKS = {
     "C05": dict(
         packs=["c05"], level="other",
         explanation="Predicate agreement between contains() and the search behind points(): R05.1 circle (same strict squared-distance comparison against the same circle's center_2x/threshold), ellipse (both through EllipseContains::new(size).contains(2p - center_2x)), sector (circle test and PlaneSector::new(angle_start, angle_sweep) on 2p - center_2x, scanning the whole circle's distance iterator; Sector::center_2x agrees with Circle::center_2x), "
-                    "R05.2 rounded rectangle: the quadrant/row-guard table of RoundedRectangleContains::contains equals the one of the row search (with find/rfind per side) and only the fall-through accepts without consulting a corner; R19.1 triangle canonical edges in contains() and in the scanline intersection; R05.3 rectangle iterator corners.",
+                    "R05.2 rounded rectangle: the quadrant/row-guard table of RoundedRectangleContains::contains equals the one of the row search (with find/rfind per side) and only the fall-through accepts without consulting a corner; R19.1 triangle canonical edges in contains() and in the scanline intersection; R05.3 rectangle iterator corners; R05.4 a row in which the search accepts no column does not end the enumeration (ellipse, rounded rectangle; the circle exempt with its reason).",
         claim="Decides that both sides evaluate the same membership predicate on the same arguments for circle, ellipse, sector, rounded rectangle and triangle edges; that the per-row searches enumerate exactly the accepted points (mirrored runs, rows without hit, order, uniqueness) is numeric and not decided.",
         note="Necessary conditions; a divergence is reported as undecided unless one side is visibly a different function.",
         technique="sibling-implementation agreement: acceptance conditions of the searches (loops / find / rfind walked once) and decision tables from path summaries over MIR",
